@@ -13,6 +13,7 @@ from ref import refed
 from ref.optable import op, push
 
 T_ = env.tools
+F = env.functions
 L = refed.L
 MSG_LENS = [0, 1, 31, 32, 33, 63, 64, 65, 127, 128, 255, 256, 512]
 
@@ -315,6 +316,24 @@ def builder_case(ctx, case):
         ctx.violation({'builder': 'decrypt_adapter', 'clause': '(R+T, sa+t)'}, f'{tag}')
     if not refed.verify_strict(X, m, sig[:64]):
         ctx.violation({'builder': 'decrypt_adapter', 'clause': 'decrypted signature verifies (reference)'}, f'{tag}')
+    # the builders do not depend on which side-effect flags the embedder left switched on (the VM's integer flags only say which
+    # intermediate values are ALSO copied into the cache)
+    if si == 0:
+        saved_fts = list(F.flags_to_set)
+        for off in ((7,), (9,), (7, 9), (3, 4, 6, 8), tuple(range(11))):
+            F.flags_to_set[:] = [x for x in saved_fts if x not in off]
+            try:
+                sig_f = T_.decrypt_adapter(wit, t)
+                wit_f = T_.make_adapter_witness(ks, Tp, dict(sf), flags)
+                ok_f = sig_f == want_sig and len(wit_f.bytes) == 68 and adapter_equation(X, Tp, m, wit_f.bytes[36:68], wit_f.bytes[2:34])
+            except BaseException as e:
+                ok_f = repr(e)
+            finally:
+                F.flags_to_set[:] = saved_fts
+            ctx.ran(2)
+            if ok_f is not True:
+                ctx.violation({'builder': 'decrypt_adapter / make_adapter_witness', 'clause': 'builders work whatever integer flags the embedder enabled'},
+                              f'{tag}: flags {off} taken out of flags_to_set: {ok_f}')
     sigitem = sig + (bytes([fl]) if fl else b'')
     # anyone recovers t from the signature and the adapter witness through the library's own recovery function (y = 0); a form of the
     # signature it does not take (flag byte attached, cut short) is refused, never turned into another scalar
